@@ -14,6 +14,8 @@ fn setup() {
     // the decision log is parsed as plain text
     unsafe { std::env::set_var("NO_COLOR", "1") };
     vcommon::install_quiet_panic_hook();
+    // libtest prints "test <name> ... " without a newline; JSON lines must start a line
+    println!();
 }
 
 #[test]
